@@ -1,8 +1,10 @@
 #!/bin/bash
-# seed_run.sh <patch.diff> <PROP>...: apply a seeded change to /repo, run the checks, undo it
+# seed_run.sh <patch.diff> <PROP>...: apply a seeded change to the repository ($VERIF_REPO, default /repo), run the
+# checks of this /verif tree, undo it
 PATCH=$1; shift
-cd /repo && git apply $PATCH || { echo "PATCH-DOES-NOT-APPLY"; exit 3; }
-export VERIF_EVIDENCE_DIR=/verif/.work/seed_evidence
-for p in "$@"; do ( cd /verif && bin/check $p --no-canary 2>&1 | grep -v "^$" | tail -6; echo "   -> exit=${PIPESTATUS[0]}" ); done
-cd /repo && git checkout -q -- . && git clean -fdq src
-( cd /verif && bin/setup >/dev/null 2>&1 )   # rebuild the replay binary from the restored tree
+V="$(cd "$(dirname "$0")/.." && pwd)"; R="${VERIF_REPO:-/repo}"
+cd $R && git apply $PATCH || { echo "PATCH-DOES-NOT-APPLY"; exit 3; }
+export VERIF_EVIDENCE_DIR=$V/.work/seed_evidence
+for p in "$@"; do ( cd $V && bin/check $p --no-canary 2>&1 | grep -v "^$" | tail -6; echo "   -> exit=${PIPESTATUS[0]}" ); done
+cd $R && git checkout -q -- . && git clean -fdq src
+( cd $V && bin/setup >/dev/null 2>&1 )   # rebuild the replay binary from the restored tree
